@@ -13,13 +13,13 @@ use std::collections::BTreeMap;
 pub const SPEC: PropSpec = PropSpec {
     id: "C07",
     level: "exploration",
-    rule: "Cases = (document bytes, target type, entry point from_str / from_reader with piece size 1 or whole). Documents: serializations of generated family values under token-level mutation (insert / delete / duplicate / swap / splice of start tags, end tags, empty tags, text, whitespace, CDATA, comments, DOCTYPE between any tokens incl. between two texts, PIs, XML declarations, valid / unknown / zero / unterminated entity and character references, xsi:nil with and without its namespace declaration, duplicate and malformed attributes, BOM), truncation at every byte, and token soup with no valid base. Targets: every family type, every overlapped-list shape, the optional-content types and about 110 further targets (String, numbers, bool, char, unit, tuples, top-level compositions of Option / Vec / unit / maps, HashMap/BTreeMap with typed keys, IgnoredAny, one-field holders with any kind of type in $text / $value / attribute / element position, $text variants of every kind, flatten, untagged / internally / adjacently tagged enums, serde_json::Value, byte buffers, tuple structs); the evidence lists them under targets.*. Each worker caps its address space, so a case that allocates without bound ends as a reported worker death. Every call runs under catch_unwind; a panic is a violation (signature = file:line + message); a case that makes no progress for 30 s (and again 90 s when re-run alone in journal mode) is a violation; Ok and Err are both fine. Non-trivial = the document reached the deserializer with at least one start tag.",
+    rule: "Cases = (document bytes, target type, entry point from_str / from_reader with piece size 1 or whole). Documents: serializations of generated family values under token-level mutation (insert / delete / duplicate / swap / splice of start tags, end tags, empty tags, text, whitespace, CDATA, comments, DOCTYPE between any tokens incl. between two texts, PIs, XML declarations, valid / unknown / zero / unterminated entity and character references, xsi:nil with and without its namespace declaration, duplicate and malformed attributes, BOM), truncation at every byte, token soup with no valid base, and documents in a legacy encoding (windows-1251, koi8-r) with element and attribute names outside ASCII, intact and with one byte damaged. Targets: every family type, every overlapped-list shape, the optional-content types and about 110 further targets (String, numbers, bool, char, unit, tuples, top-level compositions of Option / Vec / unit / maps, HashMap/BTreeMap with typed keys, IgnoredAny, one-field holders with any kind of type in $text / $value / attribute / element position, $text variants of every kind, flatten, untagged / internally / adjacently tagged enums, serde_json::Value, byte buffers, tuple structs); the evidence lists them under targets.*. Each worker caps its address space, so a case that allocates without bound ends as a reported worker death. Every call runs under catch_unwind; a panic is a violation (signature = file:line + message); a case that makes no progress for 30 s (and again 90 s when re-run alone in journal mode) is a violation; Ok and Err are both fine. Non-trivial = the document reached the deserializer with at least one start tag.",
     assumptions: &["documents are valid UTF-8 strings for from_str (the API requires &str); from_reader additionally receives the same bytes", "termination is decided by the stall detector on logical progress (cases finished), not by a deadline on the whole run"],
-    required: &["docs_with_start_tag", "results.ok", "results.err", "entry.from_str", "entry.from_reader", "mutation.doctype_between_texts", "mutation.insert", "mutation.delete", "mutation.duplicate", "mutation.splice", "mutation.truncate", "mutation.soup", "mutation.xsi_nil_attr", "mutation.attr_added", "targets_seen_all"],
+    required: &["mutation.legacy_encoding_document", "docs_with_start_tag", "results.ok", "results.err", "entry.from_str", "entry.from_reader", "mutation.doctype_between_texts", "mutation.insert", "mutation.delete", "mutation.duplicate", "mutation.splice", "mutation.truncate", "mutation.soup", "mutation.xsi_nil_attr", "mutation.attr_added", "targets_seen_all"],
     run,
     replay,
-    thorough_layers: &[("plain", 100), ("asan", 20), ("miri", 1), ("fuzz", 60)],
-    quick_layers: &[],
+    thorough_layers: &[("novl", 50), ("plain", 100), ("asan", 20), ("miri", 1), ("fuzz", 60)],
+    quick_layers: &[("novl", 50)],
     post: Some(post),
 };
 
@@ -221,6 +221,27 @@ pub fn exec(ops: &TypeOps, doc: &str, reader: bool, piece: usize) -> Result<Resu
     })
 }
 
+/// A generated Cyrillic document in the given encoding through from_reader, into three targets;
+/// returns how many of them deserialized.
+fn exec_encoded(label: &str, vseed: u64, damage: bool) -> u64 {
+    let mut r = Rng::new(vseed);
+    let (_, declared, _) = gen_cyr_doc(&mut r, label);
+    let enc = encoding_rs::Encoding::for_label(label.as_bytes()).unwrap_or(encoding_rs::UTF_8);
+    let (bytes, _, _) = enc.encode(&declared);
+    let mut bytes = bytes.into_owned();
+    if damage && !bytes.is_empty() {
+        let i = r.below(bytes.len());
+        bytes[i] = *r.pick(&[b'<', b'>', b'"', b'=', b' ', 0xFF, 0xC0, b'&', b'/', 0x98]);
+    }
+    let piece = [0usize, 1, 3][r.below(3)];
+    let cuts = |n: usize| if piece == 0 { vec![] } else { cuts_for_piece(n, piece, 0) };
+    let mut oks = 0;
+    oks += quick_xml::de::from_reader::<_, CyrDoc>(ChunkedRead::new(&bytes, cuts(bytes.len()))).is_ok() as u64;
+    oks += quick_xml::de::from_reader::<_, std::collections::HashMap<String, String>>(ChunkedRead::new(&bytes, cuts(bytes.len()))).is_ok() as u64;
+    oks += quick_xml::de::from_reader::<_, serde_json::Value>(ChunkedRead::new(&bytes, cuts(bytes.len()))).is_ok() as u64;
+    oks
+}
+
 fn run_doc(ctx: &mut Ctx, loc: &mut Local, all: &[TypeOps], doc: &str, own: usize, r: &mut Rng) -> bool {
     let has_start = doc.as_bytes().windows(2).any(|w| w[0] == b'<' && (w[1].is_ascii_alphabetic() || w[1] == b'_'));
     if has_start {
@@ -334,6 +355,32 @@ fn run(ctx: &mut Ctx) {
         }
         prev = doc;
     }
+    // documents in a legacy encoding whose element and attribute names are outside ASCII (the
+    // deserializer transcodes names and values), intact and with one byte damaged
+    {
+        let n = if small { 2 } else { ctx.scaled(t.pick(300, 3_000)) / ctx.nshards as u64 + 1 };
+        for k in 0..n {
+            let vseed = r.next();
+            for label in ["windows-1251", "koi8-r", "utf-8"] {
+                for damage in [false, true] {
+                    let case = json!({"encoded": label, "value_seed": vseed, "damage": damage});
+                    ctx.journal(|| case.clone());
+                    ctx.eval(H::new().str(label).u64(vseed).u64(damage as u64 + 20).finish(), true);
+                    *loc.muts.entry("mutation.legacy_encoding_document").or_insert(0) += 1;
+                    match guarded(|| exec_encoded(label, vseed, damage)) {
+                        Ok(oks) => {
+                            loc.ok += oks;
+                            loc.err += 3 - oks;
+                        }
+                        Err(p) => {
+                            ctx.violation(case, format!("deserializing a document in {} panicked: {}", label, p));
+                        }
+                    }
+                }
+            }
+            let _ = k;
+        }
+    }
     // fixed regression shapes, every target, both entry points
     for (i, d) in ["<a>x<!--c--> <!DOCTYPE y>z</a>", "<a><![CDATA[x]]> <!DOCTYPE y>z</a>", "<a>x<?p?> <!DOCTYPE y> <!--c--> z</a>", "x<!--c--> <!DOCTYPE y>z", "<a>x<!DOCTYPE y>z</a>", "x<!DOCTYPE y>z", "<a><![CDATA[x]]><!DOCTYPE y>z</a>", "<a>x<!DOCTYPE y><!--c-->z</a>", "<a>x<!DOCTYPE y></a>", "<a><!DOCTYPE y>z</a>", "<a>x<!DOCTYPE y [<!ENTITY e \"v\">]>&e;</a>", "<a></b>", "</a>", "<a>", "<a><a/>", "", " ", "<a xsi:nil=\"true\"/>"].iter().enumerate() {
         if !ctx.owns(i as u64) {
@@ -374,6 +421,9 @@ fn run(ctx: &mut Ctx) {
 fn replay(case: &Value, _ctx: &mut Ctx) -> Option<String> {
     if let Some(h) = case.get("fuzz").and_then(|v| v.as_str()) {
         return fuzz_entry(&crate::ctx::unhex(h)).err();
+    }
+    if let Some(label) = case.get("encoded").and_then(|v| v.as_str()) {
+        return guarded(|| exec_encoded(label, case["value_seed"].as_u64().unwrap_or(0), case["damage"].as_bool().unwrap_or(false))).err().map(|p| format!("deserializing a document in {} panicked: {}", label, p));
     }
     let all = all_targets();
     let ops = all.iter().find(|o| o.name == case["target"].as_str().unwrap_or(""))?;
